@@ -79,7 +79,8 @@ REFUSED = {
     "set comparison": "def f(d, x, o):\n    if {*x.split()} == {*x.split()}:\n        return 'y'\n    return x\n",
     "empty list without a declared type": "def f(d, x, o):\n    l = []\n    return x\n    ",
     "list of lists": "def f(d, x, o):\n    l = [x.split()]\n    if l:\n        return 'y'\n    return x\n",
-    "nested comprehension": "def f(d, x, o):\n    l = [a + b for a in x.split() for b in x.split()]\n    if l:\n        return 'y'\n    return x\n",
+    # (two generators are a construct of the translator now: added for harness/pygen_pxloc.py, exercised by pygen_pxloc_selftest.py)
+    "nested comprehension": "def f(d, x, o):\n    l = [a + b + c for a in x.split() for b in x.split() for c in x.split()]\n    if l:\n        return 'y'\n    return x\n",
     "comprehension over a string": "def f(d, x, o):\n    l = [c for c in x]\n    if l:\n        return 'y'\n    return x\n",
     "comprehension variable also assigned": "def f(d, x, o):\n    w = 'a'\n    l = [w for w in x.split()]\n    if l:\n        return w\n    return x\n",
     "dictionary read in a comprehension": "def f(d, x, o):\n    l = [d['k'] for w in x.split()]\n    if l:\n        return 'y'\n    return x\n",
@@ -101,7 +102,8 @@ REFUSED = {
     "read behind and in a comprehension": "def f(d, x, o):\n    l = [w for w in x.split() if w == 'a' and d['k'] == w]\n    if l:\n        return 'y'\n    return x\n",
     "loop updating two locals": "def f(d, x, o):\n    n = 0\n    m = 0\n    for w in x.split():\n        n += 1\n        m += 2\n    if n == m:\n        return 'y'\n    return x\n",
     "loop updating an undeclared local": "def f(d, x, o):\n    for w in x.split():\n        n = 1\n    return x\n",
-    "search loop with an else branch": "def f(d, x, o):\n    for w in x.split():\n        if w == 'a':\n            return w\n        else:\n            return x\n    return x\n",
+    # (an else branch that only returns is a construct now - `if`-tree search loops of pygen_pxloc_selftest.py)
+    "search loop with an else branch": "def f(d, x, o):\n    for w in x.split():\n        if w == 'a':\n            return w\n        else:\n            break\n    return x\n",
     "dictionary read in a loop": "def f(d, x, o):\n    n = 0\n    for w in x.split():\n        if d['k'] == w:\n            n += 1\n    if n == 1:\n        return 'y'\n    return x\n",
     "raise in a loop": "def f(d, x, o):\n    n = 0\n    for w in x.split():\n        if w == 'a':\n            raise ValueError('bad')\n        n += 1\n    return x\n",
     "loop over a dictionary": "def f(d, x, o):\n    n = 0\n    for k in d:\n        n += 1\n    return x\n",
@@ -525,6 +527,8 @@ def main():
     bad += bad4
     import pygen_selftest_pxready              # leading `continue` guards, lambdas in declared calls, `l[0]`
     bad += pygen_selftest_pxready.run("--no-lean" not in sys.argv)
+    import pygen_pxloc_selftest                # `if`-tree search loops, two-generator comprehensions, opaque set operations
+    bad += pygen_pxloc_selftest.run("--no-lean" not in sys.argv)
     for what, src in REFUSED.items():
         try:
             tree = ast.parse(src)
